@@ -25,7 +25,11 @@ inductive Expr
   /-- local variable or parameter (numbered by the extractor) -/
   | var (x : Nat)
   /-- `view f e`: what is reached from `e` through field `f` — label 0: the same object seen differently (`reshape`,
-  `np.asarray`, `cast`); label 1: an item (`x[...]`, iteration); labels ≥ 2: attribute names (numbered per program) -/
+  `np.asarray`, `cast`); label 1: an item (`x[...]`, iteration); label 3: a shared `DataElement`; label 4: an item of an item (of a dict of lists, a list of lists); labels ≥ 5: attribute names
+  (numbered per program).  For each region `e` may live in: the objects stored under `f` from that region if there are any
+  (explicitly assigned / appended), otherwise the region itself (a part of the same allocation).  [Dropping the region when it
+  has such links can only lose writes to a region that already was the holder of a recorded store — an input region becomes
+  a holder only through a write that is itself reported.] -/
   | view (f : Nat) (e : Expr)
   /-- a newly allocated object (deepcopy, astype, arithmetic, constructor, unknown call result) -/
   | fresh
@@ -77,12 +81,15 @@ def eval (env : List (Nat × Ref)) (links : List (Nat × Nat × Nat)) (next : Na
     | none => (⟨[next], true⟩, next + 1)
   | .view f e =>
     let r := eval env links next e
-    (⟨r.1.regions ++ (if f = 0 then [] else targets links r.1.regions f), false⟩, r.2)
+    (⟨(if f = 0 then r.1.regions else r.1.regions.flatMap fun k =>
+          -- label 4 = an item of an item: stored as such, or an item of an explicitly stored item
+          let t := if f = 4 then targets links [k] 4 ++ targets links (targets links [k] 1) 1 else targets links [k] f
+          if t.isEmpty then [k] else t).eraseDups, false⟩, r.2)
   | .fresh => (⟨[next], true⟩, next + 1)
   | .join a b =>
     let ra := eval env links next a
     let rb := eval env links ra.2 b
-    (⟨ra.1.regions ++ rb.1.regions, false⟩, rb.2)
+    (⟨(ra.1.regions ++ rb.1.regions).eraseDups, false⟩, rb.2)
 
 /-- one round of following links (whatever their label) from the regions seen so far -/
 def step (links : List (Nat × Nat × Nat)) (seen : List Nat) : List Nat :=
